@@ -23,9 +23,11 @@ from typing import Sequence, Set, Dict, Optional
 
 import networkx as nx
 import blackbird
+from blackbird.listener import is_ptype
 from blackbird.utils import to_DiGraph
 
 import strawberryfields.program_utils as pu
+from strawberryfields.parameters import FreeParameter
 from strawberryfields.program_utils import CircuitError, Command, RegRef
 
 
@@ -216,9 +218,19 @@ class Compiler(abc.ABC):
             G1nodes = self.graph.nodes().data()
             G2nodes = circuit.nodes().data()
 
+            def is_loop_parameter(y):
+                """Returns True if y depends on a looped-over (per time-bin) parameter of a TDM program"""
+                return isinstance(y, sym.Expr) and any(
+                    is_ptype(str(a.name)) for a in y.atoms(FreeParameter)
+                )
+
             for n1, n2 in GM.mapping.items():
                 for x, y in zip(G1nodes[n1]["args"], G2nodes[n2]["args"]):
-                    if x != y and not (isinstance(x, sym.Symbol) or isinstance(y, sym.Expr)):
+                    # an argument that is fixed by the layout cannot be varied per time bin
+                    fixed_arg_looped = not isinstance(x, sym.Expr) and is_loop_parameter(y)
+                    if fixed_arg_looped or (
+                        x != y and not (isinstance(x, sym.Symbol) or isinstance(y, sym.Expr))
+                    ):
                         raise CircuitError(
                             "Program cannot be used with the compiler '{}' "
                             "due to incompatible parameter values.".format(self.short_name)
